@@ -86,9 +86,10 @@ T = {
          "Audio/Region.v; tied on every run by translation (groups algebra, silence: __add__, __mul__, __eq__, __len__, the parameter check and make_silence proved equal to Region.concat / repeat / region_eqb / len / make_silence for all regions: TieAlgebra.v, TieSilence.v) "
          "and by random operation sequences (expression trees over a pool with mixed parameters), exhaustive division grids and multi-megabyte joins", "trusted: Coq kernel; " + REALS + " (make_silence only); " + CORR,
          "Rocq/Coq proof (algebraic laws, fuelled loop with fuel never exhausted) + translation tie + op-sequence correspondence"),
- "C18": ("wavio", "proof", "wav header codec round trip for widths 1/2/4; load(skip,max_read) = slice including empty results; numpy layout; partial: wave module and file system exercised, not verified",
-         "IO/Wav.v, Source.v, Pcm.v; the bytes auditok writes are compared with wav_encode, save/load round trips eager and lazy, skip/max_read grids", "trusted: Coq kernel; " + REALS + " (skip/max_read conversions); " + CORR,
-         "Rocq/Coq proof (codec round trip, slicing law) + file-level correspondence"),
+ "C18": ("wavio", "proof", "wav header codec round trip for widths 1/2/4; load(skip,max_read) = the samples [min(k1,N), +min(k2,rest)) with k = round(t*rate), including empty results (Load.v, for all audio and requests); numpy layout; partial: wave module and file system exercised, not verified",
+         "IO/Wav.v, Source.v, Load.v, Pcm.v; core._read_offline (load's eager path) is translated from core.py on every run and proved equal to Load.read_offline for all audio and float durations (TieLoad.v) and run against it; "
+         "the bytes auditok writes are compared with wav_encode, save/load round trips eager and lazy, skip/max_read grids", "trusted: Coq kernel; " + REALS + " (skip/max_read conversions); " + CORR,
+         "Rocq/Coq proof (codec round trip, slicing law of load) + translation tie of _read_offline + file-level correspondence"),
  "C19": ("reader", "proof", "recorded data = the consumed prefix (each sample once, never beyond the limit); replay after rewind = the C10 block sequence of the data; guards",
          "IO/Reader.v recorder layer; constructor arithmetic tied by translation (TieReader.v), recorder behaviour by exhaustive small configurations x histories read^k rewind ... on Recorder and AudioReader(record=True)", "trusted: Coq kernel; no axioms; " + CORR,
          "Rocq/Coq proof (induction over histories) + translation tie of the constructor arithmetic + exhaustive history correspondence"),
